@@ -25,7 +25,7 @@ LEVEL_NOTE = ('Table values from fixed + seed-derived alphabets. A request withi
 RULE = ("cases: (interpolator, n_ap, spacing, n_models, table unit); executions: one call per (request set, request unit), one evaluation per returned cell; non-trivial = distinct "
         "(case, request set, unit) with n_ap >= 2")
 ASSUMPTIONS = ["tables strictly increasing in aperture with ratio >= 1.05", "finite value alphabets"]
-REQUIRED_CLASSES = ['sed-aperture-table-in-other-unit', 'spectrum-of-100-wavelengths-or-more', 'table-with-a-non-finite-cell', 'error-in-other-unit', 'history-interpolate-after-change', 'on-knot', 'inside-segment', 'beyond-table', 'below-refused', 'single-aperture-repeated', 'other-unit', 'bare-numbers', 'mixture', 'single-element',
+REQUIRED_CLASSES = ['model-names-of-40-characters', 'sed-aperture-table-in-other-unit', 'spectrum-of-100-wavelengths-or-more', 'table-with-a-non-finite-cell', 'error-in-other-unit', 'history-interpolate-after-change', 'on-knot', 'inside-segment', 'beyond-table', 'below-refused', 'single-aperture-repeated', 'other-unit', 'bare-numbers', 'mixture', 'single-element',
                     'variable-at-filter-wavelength', 'variable-above-table', 'variable-on-largest-knot', 'conv', 'sed', 'sed-variable']
 TIMEOUT = {'quick': 300, 'thorough': 1200}
 
@@ -121,6 +121,10 @@ def _conv(ctx, case, rec):
     err = flux * 0.125 + 0.01
     tunit = u.Unit(case['tunit'])
     names = np.array(['cf_%d' % ((i * 5 + 2) % n_models) for i in range(n_models)])
+    if n_ap % 3 == 0:
+        # names that spell out parameters: 40 characters of which the first 38 are shared
+        names = np.array(['convolved_model_with_long_parameters_%s' % str(x)[-3:].rjust(3, '_') for x in names])
+        rec.cls('model-names-of-40-characters')
     key = ('conv', n_ap, case['spacing'], n_models, case['tunit'])
     rec.state(key)
     for sname, req in _request_sets(ap).items():
